@@ -14,7 +14,11 @@ CFG = {
             "0-1 Stop, 0-2 Resize (to 0-4, grow/shrink/same), Finish weight 0/1/3/6 so that queues are empty, partial or full when "
             "Stop/Resize hit; enacted on the real WorkerPool with gate-controlled tasks; plus fixed schedules (the two schedules "
             "fixed by 9607c86, full-queue timeout, grow then stop, three Stop/Resize overlaps). Steps the pool could not be "
-            "steered into are counted in the tags as not_enacted, never as failures. A case is non-trivial when a Stop or a "
+            "steered into are counted in the tags as not_enacted, never as failures. To keep the set of model states the Coq "
+            "monitor must track small, the driver keeps at most one call whose acceptance is unobservable (SubmitWait / "
+            "ExecuteWithWorker; others are downgraded to Submit, tag mode_downgraded_to_submit) and at most one call in flight "
+            "when it issues Stop or Resize (it waits for Submit's 50 ms timer; tag calm_timeout); the monitor gives up, "
+            "reported as a mismatch, above 1500 compatible states (largest seen in 4500 measured cases: 422). A case is non-trivial when a Stop or a "
             "Resize was called while tasks were executing or queued, or when Stop and Resize calls overlapped; "
             "distinct = distinct observed event logs",
     "assumptions": [
